@@ -72,6 +72,42 @@ def shard_env(stage_dir, tmpdir, extra=None, variant="plain"):
     return env
 
 
+VALGRIND = ["valgrind", "--tool=memcheck", "--error-limit=no", "--num-callers=30", "--track-origins=no",
+            "--read-var-info=no", "--leak-check=no"]
+
+
+def sanitizer_findings(variant, log_text):
+    """Return list of (key, what) extracted from a shard log of a sanitizer variant."""
+    out = []
+    if variant == "asan":
+        for marker, key in (("ERROR: AddressSanitizer", "asan-report"), ("runtime error:", "ubsan-report")):
+            k = log_text.find(marker)
+            if k >= 0:
+                out.append((key, log_text[k:k + 1200]))
+    elif variant == "valgrind":
+        # error blocks: "==pid== <Kind>" ... stack lines; keep those with a kernel frame
+        blocks = []
+        cur = []
+        for ln in log_text.splitlines():
+            if ln.startswith("==") and "== " in ln:
+                body = ln.split("== ", 1)[1] if "== " in ln else ""
+                if body.strip() == "":
+                    if cur:
+                        blocks.append(cur)
+                    cur = []
+                else:
+                    cur.append(body)
+        if cur:
+            blocks.append(cur)
+        for b in blocks:
+            txt = "\n".join(b)
+            if ("fast_likelihood" in txt or "twobody" in txt) and (
+                    "Invalid" in b[0] or "uninitialised" in b[0] or "Conditional jump" in b[0] or "Use of" in b[0]
+                    or "Mismatched" in b[0] or "Source and destination overlap" in b[0]):
+                out.append(("valgrind-report", txt[:1200]))
+    return out
+
+
 def run_shards(driver, stage_dir, work, ctxs, timeout, variant="plain", extra_env=None, par=16):
     """ctxs: list of ctx dicts. Returns list of (ctx, result-or-None, diag)."""
     procs = []
@@ -90,8 +126,12 @@ def run_shards(driver, stage_dir, work, ctxs, timeout, variant="plain", extra_en
             with open(os.path.join(sdir, "ctx.json"), "w") as f:
                 json.dump(ctx, f)
             log = open(os.path.join(sdir, "log.txt"), "w")
-            p = subprocess.Popen([PY, "-m", "tjverif.shard", driver, os.path.join(sdir, "ctx.json")],
-                                 env=shard_env(stage_dir, sdir, extra_env, variant),
+            cmd = [PY, "-m", "tjverif.shard", driver, os.path.join(sdir, "ctx.json")]
+            env = shard_env(stage_dir, sdir, extra_env, "asan" if variant == "asan" else "plain")
+            if variant == "valgrind":
+                cmd = VALGRIND + cmd
+                env["PYTHONMALLOC"] = "malloc"
+            p = subprocess.Popen(cmd, env=env,
                                  stdout=log, stderr=subprocess.STDOUT, cwd=sdir)
             running.append((k, ctx, p, log, time.time()))
         still = []
@@ -115,9 +155,21 @@ def run_shards(driver, stage_dir, work, ctxs, timeout, variant="plain", extra_en
                 except Exception as e:  # noqa
                     res = None
             diag = ""
+            with open(os.path.join(ctx["tmpdir"], "log.txt"), errors="replace") as f:
+                logtxt = f.read()
+            if variant in ("asan", "valgrind"):
+                found = sanitizer_findings(variant, logtxt)
+                if found:
+                    if res is None:
+                        res = {"evaluations": 0, "violations": [], "counters": {}}
+                    for key, what in found[:5]:
+                        res.setdefault("violations", []).append(
+                            {"key": key, "what": what[:600], "case": {"variant": variant, "report": what}})
+                if res is not None:
+                    res.setdefault("counters", {})["sanitizer_%s_shards_clean" % variant] = 0 if found else 1
+                    res["counters"]["sanitizer_%s_reports" % variant] = len(found)
             if res is None:
-                with open(os.path.join(ctx["tmpdir"], "log.txt"), errors="replace") as f:
-                    diag = "rc=%s log-tail=%s" % (rc, f.read()[-3000:])
+                diag = "rc=%s log-tail=%s" % (rc, logtxt[-3000:])
             results.append((ctx, res, diag))
         running = still
         if running:
@@ -249,7 +301,8 @@ def main(argv=None):
                 replay_case = json.load(f)["violation"]
         for variant in variants:
             try:
-                stage_dir, info = build.stage(repo, variant, dest=os.path.join(work, "stage-" + variant))
+                stage_dir, info = build.stage(repo, "plain" if variant == "valgrind" else variant,
+                                              dest=os.path.join(work, "stage-" + variant))
             except build.KernelUnbuildable as e:
                 if variant == "plain":
                     raise
